@@ -447,6 +447,54 @@ def selftest():
                         "-config", cfg, "ACSearch.tla"], cwd=sd, stdout=subprocess.PIPE, stderr=subprocess.STDOUT, text=True)
     results["un-repaired F1 in the specification violates ACSearch!Correct"] = "Invariant Correct is violated" in p.stdout
 
+    # 6. vacuity: with TLC's coverage statistics, every action of every operational module
+    #    is taken in at least one of the configurations the quick checks use
+    import glob
+    import re
+    cfgs = sorted(glob.glob(os.path.join(WORK, "cfg_c*.cfg"))) if os.environ.get("SELFTEST_COVERAGE", "1") == "1" else []
+    taken = {}
+    mods = {"search": "ACSearch", "iter": "ACIter", "overlap": "ACOverlap", "stream": "ACStream",
+            "packed": "ACPacked", "build": "ACBuild", "shared": "ACShared", "shuffle": "ACShuffle",
+            "bytes": "ACReplace", "str": "ACReplace"}
+    for cfg in cfgs:
+        key = os.path.basename(cfg)[4:-4].split("_")[-1]
+        if key not in mods:
+            continue
+        mod = mods[key]
+        p = subprocess.run(["java", "-Xss512m", "-Xmx12g", "-cp", "/opt/veriftools/tla/tla2tools.jar:/opt/veriftools/tla/CommunityModules-deps.jar",
+                            "tlc2.TLC", "-workers", "12", "-coverage", "1", "-metadir", os.path.join(wd, "covmd"), "-cleanup",
+                            "-noGenerateSpecTE", "-config", cfg, mod + ".tla"], cwd=SPEC, stdout=subprocess.PIPE,
+                           stderr=subprocess.STDOUT, text=True, timeout=3000)
+        for m in re.finditer(r"^<(\w+) line \d+, col \d+ to line \d+, col \d+ of module (\w+)>: (\d+):(\d+)", p.stdout, re.M):
+            if m.group(2) == mod and m.group(1) != "Init":
+                taken[(mod, m.group(1))] = max(taken.get((mod, m.group(1)), 0), int(m.group(4)))
+    never = sorted(k for k, v in taken.items() if v == 0)
+    results["every action of every operational module is taken in some quick configuration (%d actions)" % len(taken)] = \
+        ((len(taken) > 20 and not never) or not cfgs)
+    if never:
+        log("never taken: %s" % never)
+
+    # 7. named branch witnesses are reachable (TLC must find the NEGATED witness violated)
+    wit = [("ACSearch", search_consts(ALLK, [False, True], [False], [False, True], True),
+            ["Reach_AnchoredFilter", "Reach_PrefilterSkip", "Reach_DeadAfterMatch"]),
+           ("ACStream", stream_consts(False, True),
+            ["Reach_RollWithMatchAcross", "Reach_PreRollChunk", "Reach_FailedAfterOutput"])]
+    for mod, consts, names in wit:
+        for nm in names:
+            neg = "Not_" + nm
+            mtext = open(os.path.join(SPEC, mod + ".tla")).read()
+            wdir = os.path.join(wd, "wit_" + nm)
+            shutil.copytree(SPEC, wdir)
+            open(os.path.join(wdir, mod + ".tla"), "w").write(
+                mtext.replace("=" * 77, neg + " == ~" + nm + "\n" + "=" * 77))
+            cfg = stages.write_cfg("wit_" + nm, constants=consts, invariants=[neg])
+            p = subprocess.run(["java", "-Xss512m", "-Xmx12g", "-cp", "/opt/veriftools/tla/tla2tools.jar:/opt/veriftools/tla/CommunityModules-deps.jar",
+                                "tlc2.TLC", "-workers", "12", "-metadir", os.path.join(wd, "witmd"), "-cleanup",
+                                "-noGenerateSpecTE", "-config", cfg, mod + ".tla"], cwd=wdir, stdout=subprocess.PIPE,
+                               stderr=subprocess.STDOUT, text=True, timeout=3000)
+            results["witness %s!%s is reachable" % (mod, nm)] = ("Invariant %s is violated" % neg) in p.stdout
+            shutil.rmtree(wdir, ignore_errors=True)
+
     ok = all(results.values())
     for k, v in results.items():
         log(("DETECTED  " if v else "MISSED    ") + k)
